@@ -93,6 +93,10 @@ pub fn run_check(id: &str, tier: Tier) -> i32 {
         "C09" => {
             ctx.rule("same histories; oracle: pre-state/post-state relation on the observed lease table; non-trivial = a holder asks again while holding a second lease / naming another address / after a pool change, or a refusal for lack of addresses; the clock is also placed one second before, at and after a client's expiry (no snapping), where only the reading-independent part is judged: a refusal needs every pool address held by another client whose lease may still be running");
             props_dhcp::run_hist_func(&ctx, id);
+            if ctx.violations.lock().unwrap().is_empty() {
+                ctx.rule("one-address-left: pools of 1..150 addresses (thorough: every size 1..200) in which every address but one is held by its own client; enumerated over every position of the free address: a newcomer must be given exactly that address, never refused; non-trivial = pool of at least two addresses");
+                props_dhcp::run_c09_exhaust(&ctx);
+            }
         }
         "C10" => {
             ctx.rule("same histories; oracle: option 51 present, 300..=86400, record duration equals it and record does not expire early; non-trivial = reply for an address the client already had a row for (lease time computed from history)");
@@ -131,7 +135,7 @@ pub fn run_check(id: &str, tier: Tier) -> i32 {
             ctx.rule("upgraded-db: the same walk over a lease file written in the layout of an older release (no version row / version 0 / version 1 whose option blobs are NULL), 1..8 pre-existing rows owned by world clients or strangers, active and expired, followed by a generated history; non-trivial = rows written before the option column existed are still stored at the end");
             props_dhcp::run_c20_func(&ctx);
             if wire_ok && ctx.violations.lock().unwrap().is_empty() {
-                ctx.rule("wire-listing: 2..40 (thorough 250) DHCP clients whose client-identifier and host-name options are drawn from byte strings 0..255 with quotes, backslashes, C0 controls, DEL, invalid UTF-8, multi-byte and U+2028 against the real erbium; GET /api/v1/leases.json must parse with a strict JSON parser and be in bijection (address, client id bytes, start, expiry) with the rows read from the same SQLite file; gauges from /metrics equal the harness's count before any generated lease and after ageing every n-th row; eight times a burst of 30 back-to-back DISCOVERs from new clients is sent and the gauges are scraped while the server is still working through it: the scrape, taken between two listings, must report a count between theirs");
+                ctx.rule("wire-listing: 2..40 (thorough 250) DHCP clients whose client-identifier and host-name options are drawn from byte strings 0..255 with quotes, backslashes, C0 controls, DEL, invalid UTF-8, multi-byte and U+2028 against the real erbium; GET /api/v1/leases.json must parse with a strict JSON parser and be in bijection (address, client id bytes, start, expiry) with the rows read from the same SQLite file; gauges from /metrics equal the harness's count before any generated lease, when first scraped over TCP by a client whose rule grants http-metrics and nothing else, and after ageing every n-th row; eight times a burst of 30 back-to-back DISCOVERs from new clients is sent and the gauges are scraped while the server is still working through it: the scrape, taken between two listings, must report a count between theirs");
                 props_netwire::run_c20_wire(&ctx);
             }
         }
@@ -214,7 +218,7 @@ pub fn run_check(id: &str, tier: Tier) -> i32 {
                 props_dnswire2::run_c08_wire(&ctx);
             }
             if wire_ok && ctx.violations.lock().unwrap().is_empty() {
-                ctx.rule("wire-http-acl: generated ACL lists over the client addresses of the veth rig (10.55.0.0/24 sub-prefixes, fd55::/64 sub-prefixes, ::ffff:10.55.0.x/96+n, host bits, match-unix) on the real erbium; GET /, /metrics and /api/v1/leases.json from TCP/IPv4 (seen as mapped), TCP/IPv6 and the unix socket with bound and unbound clients; oracle: status 200 <=> first-match model grants http / http-metrics / http-leases, else 403; every request answered");
+                ctx.rule("wire-http-acl: generated ACL lists over the client addresses of the veth rig (10.55.0.0/24 sub-prefixes, fd55::/64 sub-prefixes, ::ffff:10.55.0.x/96+n, host bits, match-unix) on the real erbium; GET /, /metrics and /api/v1/leases.json from TCP/IPv4 (seen as mapped), TCP/IPv6 and the unix socket with bound and unbound clients, and HEAD/POST/PUT/DELETE/OPTIONS to every page the model refuses (never 200); oracle: status 200 <=> first-match model grants http / http-metrics / http-leases, else 403; every request answered");
                 props_netwire::run_c08_http(&ctx);
             }
         }
@@ -223,7 +227,7 @@ pub fn run_check(id: &str, tier: Tier) -> i32 {
             ctx.assume("the mtu / lifetime tri-state resolution against interface and routing table lives in the impure wrapper and is decided by the wire tier; the hook takes the resolved values as parameters");
             props_ra::run_c17_func(&ctx);
             if wire_ok && ctx.violations.lock().unwrap().is_empty() {
-                ctx.rule("wire-ra: mtu {absent, null, 1400, 9000} x lifetime {absent, null, value} plus mtu 1280, 1500 and 65535 (below, at and above the 1500 of the link) configured for the server-side interface of the veth rig on the real erbium, plus 12 (thorough 120) generated interface sections; a router solicitation is injected as a raw frame, the advertisement captured: hop limit 255, ICMPv6 checksum verifies, body decoded by the RFC decoder and compared with expected(config) where mtu absent => interface MTU, null => no option; lifetime absent/null => 0 (no default route in the rig)");
+                ctx.rule("wire-ra: mtu {absent, null, 1400, 9000} x lifetime {absent, null, value} plus mtu 1280, 1500 and 65535 (below, at and above the 1500 of the link) configured for the server-side interface of the veth rig on the real erbium, plus a configuration with no router-advertisements section at all (prefixes derived from the interface's own addresses under the top-level addresses: advertised with the bits beyond the prefix length zero), plus 12 (thorough 120) generated interface sections; a router solicitation is injected as a raw frame, the advertisement captured: hop limit 255, ICMPv6 checksum verifies, body decoded by the RFC decoder and compared with expected(config) where mtu absent => interface MTU, null => no option; lifetime absent/null => 0 (no default route in the rig)");
                 props_netwire::run_c17_wire(&ctx);
             }
         }
